@@ -1217,6 +1217,42 @@ func materialSig(p *position.Position) string {
 
 // ------------------------------------------------------------------------------------- C15
 
+// swappedInPlace: the same men on the same squares with the colours exchanged (no mirroring), castling rights and en-passant
+// field dropped; the side to move is chosen so that the side not to move is not in check (nil when neither choice is legal)
+func swappedInPlace(fen string) *position.Position {
+	f := strings.Fields(fen)
+	if len(f) < 6 {
+		return nil
+	}
+	var b strings.Builder
+	for _, ch := range f[0] {
+		switch {
+		case ch >= 'a' && ch <= 'z':
+			b.WriteRune(ch - 'a' + 'A')
+		case ch >= 'A' && ch <= 'Z':
+			b.WriteRune(ch - 'A' + 'a')
+		default:
+			b.WriteRune(ch)
+		}
+	}
+	for _, stm := range []string{f[1], map[string]string{"w": "b", "b": "w"}[f[1]]} {
+		var q *position.Position
+		ok := false
+		guard(func() {
+			var err error
+			q, err = position.NewPositionFen(b.String() + " " + stm + " - - " + f[4] + " " + f[5])
+			if err == nil && q != nil {
+				us := q.NextPlayer()
+				ok = !q.IsAttacked(q.KingSquare(us.Flip()), us)
+			}
+		})
+		if ok {
+			return q
+		}
+	}
+	return nil
+}
+
 func (c *chessCtx) checkC15(o *Obs, fen string, pFen, pPath *position.Position) {
 	c.res.count("C15.nodes", 1)
 	if len(o.Mirror) != 1 {
@@ -1264,6 +1300,37 @@ func (c *chessCtx) checkC15(o *Obs, fen string, pFen, pPath *position.Position) 
 		}
 		if vMir != vFen {
 			c.disc("C15", "not-colour-symmetric/"+tag, "symmetry", o, fen, map[string]interface{}{"value": vFen, "mirror_value": vMir, "mirror_fen": mfen})
+		}
+		// relatives on ONE evaluator: positions that share what an evaluator might cache too coarsely - the mirror image, and the
+		// same men on the same squares with the colours exchanged in place - are evaluated on the reused evaluator right after
+		// this position; each must get the value a fresh evaluator gives it, and this position its own value again afterwards
+		rels := []struct {
+			n string
+			q *position.Position
+		}{{"mirror", pMir}}
+		if sw := swappedInPlace(fen); sw != nil {
+			rels = append(rels, struct {
+				n string
+				q *position.Position
+			}{"colours-exchanged-in-place", sw})
+		}
+		for _, rel := range rels {
+			var vFresh, vHotRel, vBack int
+			if e := guard(func() {
+				vFresh = int(evaluator.NewEvaluator().Evaluate(rel.q))
+				vHotRel = int(c.evHot.Evaluate(rel.q))
+				vBack = int(c.evHot.Evaluate(pPath))
+			}); e != "" {
+				c.disc("C15", "evaluate-panic", "panic", o, fen, e)
+				continue
+			}
+			c.res.count("C15.evaluations", 3)
+			c.res.count("C15.relatives_on_one_evaluator", 1)
+			if vHotRel != vFresh || vBack != vPath {
+				c.disc("C15", "depends-on-earlier-evaluations/"+tag, "instance/after-"+rel.n, o, fen,
+					map[string]interface{}{"relative": rel.q.StringFen(), "relative_fresh": vFresh, "relative_on_reused_evaluator": vHotRel,
+						"this_position_fresh": vPath, "this_position_afterwards": vBack})
+			}
 		}
 		var insuff bool
 		guard(func() { insuff = pFen.HasInsufficientMaterial() })
